@@ -144,7 +144,7 @@ func (e *c05Env) routeTarIn(tree *c05Node, srcDir string, src []*c05Ent, diskCat
 			var real []c05Diff
 			for _, df := range c05Compare(src, d, c05Opts{t0: t0, t1: t1}) {
 				if !strings.HasPrefix(df.Class, "untar/dir-mtime") && df.Class != "untar/symlink-mtime" && df.Class != "untar/mtime-epoch" &&
-					df.Class != "tar/fifo-skipped" && df.Class != "tar/mtime-after-2262" {
+					df.Class != "tar/mtime-after-2262" {
 					real = append(real, df)
 				}
 			}
@@ -217,6 +217,11 @@ func gnutarClass(df c05Diff, s *c05Ent) string {
 	case "untar/type":
 		if s.kind() == "chr" && df.Got == "blk" {
 			return "gnutar/char-device-as-block"
+		}
+	case "untar/symlink-mtime":
+		// the link's time became the epoch in the gnu-tar header, which untar then does not apply at all
+		if s.Nsec != 0 && (s.Sec == 0 || s.Sec == -1) {
+			return "gnutar/mtime-subsecond"
 		}
 	case "untar/mtime":
 		if s.Nsec != 0 && (df.Got == fmtTime(s.Sec, 0) || df.Got == fmtTime(s.Sec+1, 0)) {
@@ -573,10 +578,9 @@ func sortInts(a []int) {
 // ---------- archives whose root is not a directory ----------
 
 func (e *c05Env) routeRootKinds(rngSeed uint64) {
-	for _, kind := range []string{"file", "link", "chr"} {
-		if kind == "chr" && !e.root {
-			continue
-		}
+	// the property is about directory trees; a regular file as the root is the one other case tar accepts and
+	// untar gives back (a symlink or device root decodes to nothing: a fact of the model, not judged here)
+	for _, kind := range []string{"file"} {
 		g := e.newGen(vh.NewRand(rngSeed), 1, 1, 1000)
 		g.future, g.epochs, g.fifos = false, false, false
 		n := &c05Node{Name: hex.EncodeToString([]byte("obj")), Kind: kind}
@@ -623,11 +627,7 @@ func (e *c05Env) routeRootKinds(rngSeed uint64) {
 			c.Detail = short(o)
 			e.r.Fail("predicate", "untar/error", "desync untar fails on an archive whose root is a "+kind+": "+short(o), c)
 		} else if _, serr := os.Lstat(out); serr != nil {
-			cl := "untar/root-not-restored"
-			if kind == "link" || kind == "chr" {
-				cl = "untar/root-symlink-or-device-lost"
-			}
-			e.r.Fail("predicate", cl, "desync untar reports success on an archive whose root is a "+kind+" but creates nothing", c)
+			e.r.Fail("predicate", "untar/root-not-restored", "desync untar reports success on an archive whose root is a "+kind+" but creates nothing", c)
 		} else if d := e.snapshotOrFail(c, out); d != nil {
 			e.report(c, c05Compare(src, d, c05Opts{t0: t0, t1: t1}))
 		}
@@ -751,5 +751,50 @@ func (e *c05Env) routeTarShuffle(tree *c05Node, srcDir string, src []*c05Ent, r 
 			c.Detail = fmt.Sprintf("first difference at byte %d of %d/%d", i, len(got), len(m))
 			e.r.Fail("corr", "corr:C05/tar-stream-order", "archive of a reordered tar stream differs from the model of tar(): "+c.Detail, c)
 		}
+	}
+}
+
+// routeFifoClean: fifos and sockets are outside the property; what is checked is that they are left out
+// cleanly: the archive of the tree equals the archive of the same tree without them.
+func (e *c05Env) routeFifoClean(tree *c05Node, srcDir string, src []*c05Ent, catar []byte) {
+	var fifos []*c05Ent
+	for _, s := range src {
+		if k := s.kind(); k == "fifo" || k == "sock" {
+			fifos = append(fifos, s)
+		}
+	}
+	if len(fifos) == 0 || catar == nil {
+		return
+	}
+	c := &c05Case{Tree: tree, Route: "fifo-clean", Digest: "sha512-256", Entries: len(src)}
+	sm := map[string]*c05Ent{}
+	for _, s := range src {
+		sm[s.Rel] = s
+	}
+	for _, f := range fifos {
+		if err := os.Remove(filepath.Join(srcDir, f.Rel)); err != nil {
+			e.r.Note("fifo-clean: %v", err)
+			return
+		}
+	}
+	// removing an entry touched its directory: put the times back
+	for _, f := range fifos {
+		d := filepath.Dir(f.Rel)
+		if p := sm[d]; p != nil {
+			lutimens(filepath.Join(srcDir, d), p.Sec, p.Nsec)
+		}
+	}
+	out := e.scratch("nofifo") + ".catar"
+	defer os.Remove(out)
+	e.r.Count("fifo-clean|"+treeKey(tree), true)
+	if o, err := e.cli(120*time.Second, "tar", out, srcDir); err != nil {
+		c.Detail = short(o)
+		e.r.Fail("predicate", "tar/error", "desync tar fails on the tree without its fifos: "+short(o), c)
+		return
+	}
+	got, _ := os.ReadFile(out)
+	if i := c05FirstDiff(got, catar); i >= 0 {
+		c.Detail = fmt.Sprintf("first difference at byte %d of %d/%d", i, len(catar), len(got))
+		e.r.Fail("predicate", "tar/fifo-leaves-traces", "the archive of a tree with fifos differs from the archive of the same tree without them: "+c.Detail, c)
 	}
 }
